@@ -74,6 +74,8 @@ func (w *World) resolveType(s string, pkg *types.Package) (types.Type, string) {
 		return types.Typ[types.Uint], "Int"
 	case "ref":
 		return nil, "Int"
+	case "struct{}":
+		return types.NewStruct(nil, nil), ""
 	}
 	if strings.HasPrefix(s, "*") {
 		t, _ := w.resolveType(s[1:], pkg)
@@ -664,7 +666,8 @@ func (v *FnVC) evalCall(e *ECall, env *Env) Term {
 		if m.T != nil {
 			if mt, ok := m.T.Underlying().(*types.Map); ok {
 				d, _, _ := v.mapKeys(mt)
-				return boolT(fmt.Sprintf("(select (select %s %s) %s)", v.heapGet(env.st, d), m.S, k.S))
+				// a nil map has no keys
+				return boolT(fmt.Sprintf("(and (not (= %s 0)) (select (select %s %s) %s))", m.S, v.heapGet(env.st, d), m.S, k.S))
 			}
 		}
 		return boolT(fmt.Sprintf("(select %s %s)", m.S, k.S))
@@ -755,6 +758,12 @@ func (v *FnVC) evalCall(e *ECall, env *Env) Term {
 			}
 		}
 		v.fail("addrOf: no field %s", sel.Sel)
+	case "arrOf": // identity of the backing array of a slice (0 for nil)
+		a := v.evalTerm(e.Args[0], env)
+		if a.Sort != "Slice" {
+			v.fail("arrOf of non-slice")
+		}
+		return intT(fmt.Sprintf("(sarr %s)", a.S))
 	case "refOf": // identity of the object behind an interface value / pointer
 		a := v.evalTerm(e.Args[0], env)
 		if a.Sort == "Iface" {
@@ -1128,6 +1137,9 @@ func (v *FnVC) loopEnvAtHeader(h *ssa.BasicBlock, li *LoopInfo) *Env {
 
 // localByNameAt: the value of a source-level local just before instruction `before` in block blk.
 func (v *FnVC) localByNameAt(name string, blk *ssa.BasicBlock, before ssa.Instruction, st *State) (Term, bool) {
+	if t, ok := v.cellVar(name, st); ok {
+		return t, true
+	}
 	var best ssa.Value
 	var bestAddr bool
 	for _, ins := range blk.Instrs {
@@ -1153,8 +1165,36 @@ func (v *FnVC) localByNameAt(name string, blk *ssa.BasicBlock, before ssa.Instru
 	return v.localByName(name, blk, st)
 }
 
+// cellVar: a source-level variable that lives in a memory cell (captured by a closure or address-taken), when the
+// function has exactly one variable of that name. The debug reference at its definition names the assigned value,
+// not the cell, so such variables are read from their cell in the given state.
+func (v *FnVC) cellVar(name string, st *State) (Term, bool) {
+	var found *ssa.Alloc
+	n := 0
+	for _, b := range v.Fn.Blocks {
+		for _, ins := range b.Instrs {
+			if a, ok := ins.(*ssa.Alloc); ok && a.Comment == name {
+				found = a
+				n++
+			}
+		}
+	}
+	if n != 1 {
+		return Term{}, false
+	}
+	if _, defined := v.ptrs[found]; !defined {
+		if _, d2 := v.vals[found]; !d2 {
+			return Term{}, false
+		}
+	}
+	return v.load(st, v.locOf(found)), true
+}
+
 // localByName finds the SSA value bound to a source-level local at the entry of block at.
 func (v *FnVC) localByName(name string, at *ssa.BasicBlock, st *State) (Term, bool) {
+	if t, ok := v.cellVar(name, st); ok {
+		return t, true
+	}
 	var best ssa.Value
 	var bestAddr bool
 	var bestBlock *ssa.BasicBlock
